@@ -60,6 +60,9 @@ AtomsAccess == { Cmp("eq", <<"attr2", "x", "ref", "a">>, L(0)), Cmp("ge", <<"att
                  Cmp("ne", <<"var", "x">>, <<"var", "y">>), Cmp("eq", A("y", "a"), L(1)) }
 Binary == { Cmp("eq", A("x", "a"), A("y", "b")), <<"in", <<"var", "x">>, A("y", "items")>>, Cmp("ge", A("x", "b"), A("y", "a")) }
 AtomsQuant == { <<"forall", "y", c>> : c \in Binary } \cup { <<"exists", v, c>> : v \in {"x", "y"}, c \in Binary }
+              \* a union-form or_ (operands over different variables) inside the universal condition
+              \cup { <<"forall", "y", <<"or", Cmp("eq", A("y", "a"), L(0)), Cmp("eq", A("x", "b"), L(1))>> >>,
+                      <<"forall", "y", <<"or", Cmp("lt", A("x", "b"), L(1)), Cmp("eq", A("y", "b"), L(0))>> >> }
               \cup { Cmp("eq", A("x", "a"), L(0)), Cmp("lt", A("x", "b"), L(1)) }
 \* the translatable vocabulary of C07: attribute vs literal (incl. an Optional attribute holding None), a path across a
 \* relationship, membership in a literal collection, and a comparison between attributes of two variables
